@@ -49,18 +49,13 @@ Definition innermost (k : ckind) : stmt :=
 Definition prologue (k : ckind) : stmt :=
   match k with CMap _ _ => SAssign [NRet 0] [EConst (VMap [])] | _ => SSkip end.
 
-(* `for _, _ := range x` (no key, blank value) is what the compiler emits for `for _ <- x`; Go rejects it *)
-Definition phrase_accepted (p : phrase) : bool :=
-  match ph_key p, ph_val p with None, None => false | _, _ => true end.
-
-Definition lower_comprehension (k : ckind) (zero : val) (ps : list phrase) : option expr :=
-  if forallb phrase_accepted ps then
-    Some (EClosure (results_of k zero) (SSeq (prologue k) (SSeq (nest ps (innermost k)) (SReturn []))))
-  else None.
+(* a blank value variable without a key (`for _ <- x`) is emitted as `for range x` (names = nil in
+   compileComprehensionExpr / compileForPhraseStmt): SRange None None *)
+Definition lower_comprehension (k : ckind) (zero : val) (ps : list phrase) : expr :=
+  EClosure (results_of k zero) (SSeq (prologue k) (SSeq (nest ps (innermost k)) (SReturn []))).
 
 (* for k, v <- x if cond { body } *)
-Definition lower_forphrase (p : phrase) (body : stmt) : option stmt :=
-  if phrase_accepted p then Some (wrap p body) else None.
+Definition lower_forphrase (p : phrase) (body : stmt) : stmt := wrap p body.
 
 (* a <- v1, v2, ...   with a a slice variable:  a = append(a, v1, v2, ...) *)
 Definition lower_send (a : name) (vs : list expr) : stmt :=
